@@ -249,3 +249,154 @@ Proof.
     assert (E0 : d0 == 0) by lra. assert (E1 : d1 == 0) by lra. assert (E2 : d2 == 0) by lra.
     rewrite E0, E1, E2. ring.
 Qed.
+
+(* ------------------------------------------------------------------ least squares *)
+
+(* sum of squared residuals  sum_i (row_i . b - y_i)^2  (rows and data paired up to the shorter list) *)
+Fixpoint sse (X : list (list Q)) (y b : list Q) : Q :=
+  match X, y with
+  | row :: X', yi :: y' => (dotq row b - yi) * (dotq row b - yi) + sse X' y' b
+  | _, _ => 0
+  end.
+
+Definition fits (X : list (list Q)) (y b : list Q) : Prop :=
+  Forall2 (fun row yi => dotq row b == yi) X y.
+
+Lemma sq_nonneg (a : Q) : 0 <= a * a.
+Proof. destruct (Qlt_le_dec a 0); nra. Qed.
+
+Lemma sse_nonneg X : forall y b, 0 <= sse X y b.
+Proof.
+  induction X as [| row X IH]; intros [| yi y] b; simpl; try lra.
+  pose proof (sq_nonneg (dotq row b - yi)). pose proof (IH y b). lra.
+Qed.
+
+Lemma sse_fits X : forall y b, fits X y b -> sse X y b == 0.
+Proof.
+  induction X as [| row X IH]; intros y b H; inversion H; subst; simpl; [reflexivity |].
+  rewrite (IH _ _ H4), H2. ring.
+Qed.
+
+Lemma sse_zero_fits X : forall y b, length X = length y -> sse X y b <= 0 -> fits X y b.
+Proof.
+  induction X as [| row X IH]; intros [| yi y] b Hl H; simpl in *; try discriminate; constructor.
+  - pose proof (sq_nonneg (dotq row b - yi)). pose proof (sse_nonneg X y b).
+    assert (E : (dotq row b - yi) * (dotq row b - yi) == 0) by lra.
+    apply Qmult_integral in E. destruct E; lra.
+  - apply IH; [lia |]. pose proof (sq_nonneg (dotq row b - yi)). pose proof (sse_nonneg X y b). lra.
+Qed.
+
+(* A least-squares solution (a minimiser of the sum of squared residuals -- what lstsq returns) fits the
+   data exactly whenever an exact fit exists. *)
+Theorem lsq_minimiser_fits : forall X y b bstar,
+  length X = length y -> fits X y bstar ->
+  (forall b', sse X y b <= sse X y b') ->
+  fits X y b.
+Proof.
+  intros X y b bstar Hl Hs Hmin. apply sse_zero_fits; auto.
+  rewrite <- (sse_fits X y bstar Hs). apply Hmin.
+Qed.
+
+(* the same from the normal equations X^T (X b - y) = 0 *)
+Fixpoint resid (X : list (list Q)) (y b : list Q) : list Q :=
+  match X, y with
+  | row :: X', yi :: y' => (dotq row b - yi) :: resid X' y' b
+  | _, _ => []
+  end.
+
+(* X^T r = sum_i r_i row_i *)
+Fixpoint xtr (X : list (list Q)) (r : list Q) : list Q :=
+  match X, r with
+  | row :: X', ri :: r' => addv (map (Qmult ri) row) (xtr X' r')
+  | _, _ => []
+  end.
+
+Definition normal_equations (X : list (list Q)) (y b : list Q) : Prop :=
+  Forall (fun q => q == 0) (xtr X (resid X y b)).
+
+Lemma dot_allzero l : Forall (fun q => q == 0) l -> forall d, dotq l d == 0.
+Proof.
+  induction 1 as [| q l Hq H IH]; intros [| e d]; simpl; try reflexivity. rewrite Hq, IH. ring.
+Qed.
+
+Fixpoint wsum (r : list Q) (X : list (list Q)) (d : list Q) : Q :=   (* sum_i r_i (row_i . d) *)
+  match X, r with
+  | row :: X', ri :: r' => ri * dotq row d + wsum r' X' d
+  | _, _ => 0
+  end.
+
+Lemma dot_xtr X : forall r d, dotq (xtr X r) d == wsum r X d.
+Proof.
+  induction X as [| row X IH]; intros [| ri r] d; simpl; try reflexivity.
+  rewrite dot_addv, dot_scale, IH. reflexivity.
+Qed.
+
+Lemma sse_as_wsum X : forall y b bstar, fits X y bstar ->
+  sse X y b == wsum (resid X y b) X (subv b bstar).
+Proof.
+  induction X as [| row X IH]; intros y b bstar H; inversion H; subst; simpl; [reflexivity |].
+  rewrite (IH _ b bstar H4). rewrite dot_subv, H2. ring.
+Qed.
+
+Theorem normal_equations_fit : forall X y b bstar,
+  length X = length y -> fits X y bstar -> normal_equations X y b -> fits X y b.
+Proof.
+  intros X y b bstar Hl Hs Hn. apply sse_zero_fits; auto.
+  rewrite (sse_as_wsum X y b bstar Hs), <- dot_xtr.
+  rewrite (dot_allzero _ Hn). lra.
+Qed.
+
+(* ResponseSurface reproduces any quadratic: training inputs xs that determine a quadratic (full column
+   rank of the design matrix), responses of a quadratic with coefficients bstar, coefficients b returned by a
+   least-squares solve (minimiser, or solution of the normal equations) => the surrogate IS the quadratic. *)
+Definition design_matrix (xs : list (list Q)) : list (list Q) := map design xs.
+
+Lemma fits_design xs : forall b ys, fits (design_matrix xs) ys b ->
+  ys = ys -> Forall2 (fun x yi => rs_predict b x == yi) xs ys.
+Proof.
+  induction xs as [| x xs IH]; intros b ys H _; inversion H; subst; constructor; auto.
+Qed.
+
+Lemma fits_quadratic xs bstar : fits (design_matrix xs) (map (rs_predict bstar) xs) bstar.
+Proof. induction xs; simpl; constructor; auto. reflexivity. Qed.
+
+Lemma fits_same_predictions xs : forall b bstar,
+  fits (design_matrix xs) (map (rs_predict bstar) xs) b ->
+  forall x, In x xs -> rs_predict b x == rs_predict bstar x.
+Proof.
+  induction xs as [| x0 xs IH]; intros b bstar H x Hin; [destruct Hin |].
+  simpl in H. inversion H; subst. destruct Hin as [<- | Hin]; [exact H3 | eapply IH; eauto].
+Qed.
+
+Theorem rs_reproduces_quadratic : forall n xs b bstar,
+  unisolvent n xs ->
+  (forall b', sse (design_matrix xs) (map (rs_predict bstar) xs) b
+              <= sse (design_matrix xs) (map (rs_predict bstar) xs) b') ->
+  forall x, length x = n -> rs_predict b x == rs_predict bstar x.
+Proof.
+  intros n xs b bstar U Hmin x Hx.
+  apply (rs_reproduces_quadratic_partial n xs b bstar U); auto.
+  apply fits_same_predictions.
+  eapply lsq_minimiser_fits; eauto using fits_quadratic.
+  unfold design_matrix. now rewrite !map_length.
+Qed.
+
+Theorem rs_reproduces_quadratic_normal_eq : forall n xs b bstar,
+  unisolvent n xs ->
+  normal_equations (design_matrix xs) (map (rs_predict bstar) xs) b ->
+  forall x, length x = n -> rs_predict b x == rs_predict bstar x.
+Proof.
+  intros n xs b bstar U Hn x Hx.
+  apply (rs_reproduces_quadratic_partial n xs b bstar U); auto.
+  apply fits_same_predictions.
+  eapply normal_equations_fit; eauto using fits_quadratic.
+  unfold design_matrix. now rewrite !map_length.
+Qed.
+
+(* non-vacuity: the quadratic's own coefficients are a least-squares solution *)
+Example lsq_example : forall xs bstar b',
+  sse (design_matrix xs) (map (rs_predict bstar) xs) bstar
+  <= sse (design_matrix xs) (map (rs_predict bstar) xs) b'.
+Proof.
+  intros. rewrite (sse_fits _ _ _ (fits_quadratic xs bstar)). apply sse_nonneg.
+Qed.
